@@ -16,7 +16,7 @@ ASSUMPTIONS = ['interp1d is an exact piecewise-linear interpolant up to rounding
                'requests converted from another unit that land within 1e-12 of a table end are compared only on the value, not on refused / accepted (near-tie filter)',
                '10**log10(x) = x up to rounding at the filter apertures (tolerance 1e-7 for the variable variant)']
 
-LEN = {'AU': 1.0, 'pc': 206264.80624709636, 'cm': 6.684587122268446e-14, 'km': 6.684587122268445e-09}    # in AU
+LEN = {'AU': 1.0, 'pc': 206264.80624709636, 'cm': 6.684587122268446e-14, 'km': 6.684587122268445e-09, 'kpc': 206264806.24709636, 'Mpc': 206264806247.09637}    # in AU
 
 
 def generate(tier, seed):
@@ -48,7 +48,7 @@ def generate(tier, seed):
         if below:
             req.append(lo * rng.choice([0.5, 0.99]))
         tunit = rng.choice(['AU', 'AU', 'pc']) if kind == 'conv' else 'AU'
-        runit = rng.choice(['table', 'table', 'pc', 'cm', 'km']) if kind == 'conv' else rng.choice(['bare', 'bare', 'AU', 'pc'])
+        runit = rng.choice(['table', 'table', 'pc', 'cm', 'km', 'kpc', 'Mpc']) if kind == 'conv' else rng.choice(['bare', 'bare', 'AU', 'pc'])
         c = dict(kind=kind, aps=aps, val=val, req=req, tunit=tunit, runit=runit, below=below)
         if kind == 'conv' and k % 6 == 1 and nap > 1:
             # the request array in single precision or as whole numbers (the values are what the array holds); the table's largest
